@@ -761,6 +761,9 @@ def stepLine (d : Driver) (toks : List String) : Driver × List String :=
     if !d.live then (d, ["bad-op"])
     else if w == "same" then (d, ["single-last-handle closes=1 open=0 refused=0"])
     else if w == "other" then (d, ["single-last-handle closes=0 open=1 refused=1"])
+    -- built disabled on another thread, enabled on this one: the enabling thread is the submitter
+    -- (IORING_REGISTER_ENABLE_RINGS), so this is the `same` case
+    else if w == "enabled-elsewhere" then (d, ["single-last-handle closes=1 open=0 refused=0"])
     else (d, ["bad-op"])
   | ["teardown", "sqpoll-last-handle"] =>
     -- A ring with a kernel submission thread, of its own: the Ring is dropped, then a regular
